@@ -107,26 +107,30 @@ Definition expected_values (inl : bool) (c : case) : list scalar :=
   bound_values (snd (statement inl (c_ti c) (map unbytes (c_chain c)) (unbytes_fin (c_fin c)))).
 Definition nlist_eqb := list_eqb N.eqb.
 
+(* "never becomes part of the SQL text" and "the text does not depend on the values" are demanded of
+   EVERY case, also of malformed calls (more '?' than arguments, a '?' inside a literal, surplus
+   arguments ...): theorem c01_text_value_independent has no domain hypothesis *)
+Definition text_clean (c : case) : bool :=
+  no_value_in c (o_sql (c_q c)) && no_value_in c (o_sql (c_d c))
+  && no_value_in c (c_q2 c) && no_value_in c (c_d2 c)
+  && (negb (c_ran c) || no_value_in c (o_sql (c_r c)))
+  && (negb (same_shape_twin c)
+      || (String.eqb (o_sql (c_q c)) (c_q2 c) && String.eqb (o_sql (c_d c)) (c_d2 c))).
+
 Definition spec_holds (c : case) : bool :=
-  negb (in_domain c) ||
+  text_clean c &&
+  (negb (in_domain c) ||
   ( (* exactly one placeholder per bound value, numbered left to right *)
     nlist_eqb (placeholders false (s2l (o_sql (c_q c)))) (nseq (length (o_vars (c_q c))))
     && nlist_eqb (placeholders true (s2l (o_sql (c_d c)))) (nseq (length (o_vars (c_d c))))
     (* the bound values are the argument values, in order *)
     && list_eqb scalar_eqb (o_vars (c_q c)) (expected_values false c)
     && list_eqb scalar_eqb (o_vars (c_d c)) (expected_values false c)
-    (* no argument value in the text *)
-    && no_value_in c (o_sql (c_q c)) && no_value_in c (o_sql (c_d c))
-    && no_value_in c (c_q2 c) && no_value_in c (c_d2 c)
-    (* the text does not depend on the values *)
-    && (negb (same_shape_twin c)
-        || (String.eqb (o_sql (c_q c)) (c_q2 c) && String.eqb (o_sql (c_d c)) (c_d2 c)))
     (* what the driver received *)
     && (negb (c_ran c)
         || (negb (c_rerr c)
             && nlist_eqb (placeholders false (s2l (o_sql (c_r c)))) (nseq (length (o_vars (c_r c))))
-            && list_eqb scalar_eqb (o_vars (c_r c)) (expected_values true c)
-            && no_value_in c (o_sql (c_r c)))) ).
+            && list_eqb scalar_eqb (o_vars (c_r c)) (expected_values true c))) )).
 
 (* tie of the construction half with [shape]: twins of equal source shape are built into clause
    trees of equal shape *)
